@@ -262,3 +262,46 @@ func TestC10GenesisGap(t *testing.T) {
 		c.Done()
 	}
 }
+
+// TestC10HighSequence: a bridge whose deposit counter is in the upper half of the 64-bit range
+// (started from a genesis that says so; genesis validation accepts it): responses, events and the
+// counter query keep naming the same unsigned number, and the numbers stay gap-free.
+func TestC10HighSequence(t *testing.T) {
+	rec := evid.For("C10")
+	for _, start := range []uint64{1<<63 - 1, 1 << 63, 1<<64 - 3} {
+		src := henv.NewL1(henv.L1Options{NoHook: true})
+		u := henv.MakeUser("c10-high")
+		src.Fund(u.Addr, coinOf("uinit", 1000))
+		if r := src.Deliver(ophosttypes.NewMsgCreateBridge(u.Str, henv.DefaultBridgeConfig(u.Str, u.Str, time.Minute))); !r.OK() {
+			t.Fatal(r.Err)
+		}
+		gs := src.K.ExportGenesis(src.Ctx)
+		gs.Bridges[0].NextL1Sequence = start
+		if err := ophosttypes.ValidateGenesis(gs, src.AK.AddressCodec()); err != nil {
+			t.Skipf("genesis with next_l1_sequence %d does not validate: %v", start, err)
+		}
+		e := importL1(src, gs)
+		for k := uint64(0); k < 2; k++ {
+			want := start + k
+			id := fmt.Sprintf("high-sequence/%d", want)
+			r := e.Deliver(ophosttypes.NewMsgInitiateTokenDeposit(u.Str, 1, u.Str, coinOf("uinit", 3), nil))
+			if !r.OK() {
+				caseFail(t, id, "C10 violated: deposit refused at sequence %d: %v", want, r.Err)
+			}
+			if got := r.Resp.(*ophosttypes.MsgInitiateTokenDepositResponse).Sequence; got != want {
+				caseFail(t, id, "C10 violated: deposit answered sequence %d, the counter said %d", got, want)
+			}
+			evs := henv.EventAttrs(r.Events, ophosttypes.EventTypeInitiateTokenDeposit)
+			if len(evs) != 1 || evs[0][ophosttypes.AttributeKeyL1Sequence] != strconv.FormatUint(want, 10) || evs[0][ophosttypes.AttributeKeyBridgeId] != "1" {
+				caseFail(t, id, "C10 violated: the deposit event announces l1_sequence %q bridge_id %q, the response says %d for bridge 1", evs[0][ophosttypes.AttributeKeyL1Sequence], evs[0][ophosttypes.AttributeKeyBridgeId], want)
+			}
+			q, err := e.Q.NextL1Sequence(e.Ctx, &ophosttypes.QueryNextL1SequenceRequest{BridgeId: 1})
+			if err != nil || q.NextL1Sequence != want+1 {
+				caseFail(t, id, "C10 violated: NextL1Sequence = %v (err %v) after the deposit numbered %d", q, err, want)
+			}
+			c := rec.Begin()
+			c.Class("deposit-with-sequence-at-or-above-2^63")
+			c.Done()
+		}
+	}
+}
